@@ -591,3 +591,76 @@ def preprocess_coverage_check(repo, tier, seed):
             'functions': [{'function': f.ident, 'source_sha256': f.sha, 'paths': 1, 'obligations': len(obs),
                            'discharged': sum(1 for o in obs if o[1]), 'outcomes': {}, 'seconds': 0.0, 'inlined_callees': []}],
             'undecided': [], 'coverage': {'obligations': [o[0] for o in obs]}}
+
+
+def memo_key_check(repo, tier, seed):
+    """C13/C19/C03 (compile-time determinism): a table used as a memo must be keyed by everything the memoised
+    computation depends on.  For every store  self.T[K1]..[Kn] = E  (E contains a call) in a function that also tests or
+    reads self.T (the memo pattern), every local name E depends on must be determined by the key names K1..Kn
+    (data-flow closure over the function's assignments; `self` state is the compiler's own, fixed specification)."""
+    import ast, builtins
+    from .program import Program
+    prog = Program(repo)
+    obs, viol, funcs, scanned = [], [], [], 0
+    for m in prog.modules.values():
+        fl = list(m.functions.values())
+        for c in m.classes.values():
+            fl.extend(c.methods.values())
+        for f in fl:
+            scanned += 1
+            stores = []
+            for n in ast.walk(f.node):
+                if isinstance(n, ast.Assign) and len(n.targets) == 1 and isinstance(n.targets[0], ast.Subscript):
+                    keys, b = [], n.targets[0]
+                    while isinstance(b, ast.Subscript):
+                        keys.append(b.slice)
+                        b = b.value
+                    if isinstance(b, ast.Attribute) and isinstance(b.value, ast.Name) and b.value.id == 'self' \
+                            and any(isinstance(x, ast.Call) for x in ast.walk(n.value)):
+                        stores.append((b.attr, keys, n))
+            if not stores:
+                continue
+            src = ast.unparse(f.node)
+            nf = 0
+            for attr, keys, st in stores:
+                pat = 'self.%s' % attr
+                # memo pattern: the same table is tested / read elsewhere in the function
+                reads = [x for x in ast.walk(f.node) if isinstance(x, ast.Compare) and any(isinstance(o, (ast.In, ast.NotIn)) for o in x.ops)
+                         and any(ast.unparse(c_).startswith(pat) for c_ in x.comparators)]
+                reads += [x for x in ast.walk(f.node) if isinstance(x, ast.Subscript) and isinstance(x.ctx, ast.Load)
+                          and ast.unparse(x).startswith(pat + '[')]
+                if not reads:
+                    continue
+                keyvars = {x.id for k in keys for x in ast.walk(k) if isinstance(x, ast.Name)}
+                covered = set(keyvars) | {'self'}
+                assigns = [a for a in ast.walk(f.node) if isinstance(a, ast.Assign) and a is not st]
+                for _ in range(6):
+                    for a in assigns:
+                        tn = [t.id for t in a.targets if isinstance(t, ast.Name)]
+                        if tn and all(x.id in covered or hasattr(builtins, x.id) or x.id in m.functions or x.id in m.classes
+                                      for x in ast.walk(a.value) if isinstance(x, ast.Name)):
+                            # every assignment to that name must be covered
+                            for t in tn:
+                                if all(all(x.id in covered or hasattr(builtins, x.id) for x in ast.walk(a2.value) if isinstance(x, ast.Name))
+                                       for a2 in assigns if any(isinstance(t2, ast.Name) and t2.id == t for t2 in a2.targets)):
+                                    covered.add(t)
+                deps = {x.id for x in ast.walk(st.value) if isinstance(x, ast.Name)}
+                deps = {d for d in deps if not hasattr(builtins, d) and d not in m.functions and d not in m.classes
+                        and d not in getattr(m, 'imports', {})}
+                missing = sorted(deps - covered)
+                name = '%s/memo-key-covers-inputs(self.%s)@%d' % (f.ident, attr, st.lineno)
+                ok = not missing
+                obs.append((name, ok))
+                nf += 1
+                if not ok:
+                    viol.append({'obligation': name, 'function': f.ident, 'verdict': 'data-flow obligation failed',
+                                 'solver_output': 'line %d: `%s` memoises a result that depends on %s under a key built from %s only'
+                                                  % (st.lineno, ast.unparse(st)[:100], missing, sorted(keyvars)),
+                                 'inputs': None})
+            if nf:
+                funcs.append({'function': f.ident, 'source_sha256': f.sha, 'paths': 1, 'obligations': nf,
+                              'discharged': sum(1 for o in obs[-nf:] if o[1]), 'outcomes': {}, 'seconds': 0.0, 'inlined_callees': []})
+    return {'name': 'memo-key data-flow', 'obligations': len(obs), 'discharged': sum(1 for o in obs if o[1]),
+            'violations': viol, 'functions': funcs,
+            'undecided': [] if scanned >= 100 else [{'function': 'asn1tools', 'kind': 'vacuous', 'reason': 'fewer than 100 functions scanned'}],
+            'coverage': {'obligations': [o[0] for o in obs], 'functions_scanned': scanned}}
